@@ -12,52 +12,51 @@ open Manticore Manticore.SmbIR Manticore.Gen.SmbCommands
 
 theorem command_count : commands.length = 115 := by decide +kernel
 
-/-- **Every marshal program conforms** except the seven listed: all integer emissions are
+/-- **Every marshal program conforms** except the one listed: all integer emissions are
     little-endian and exactly as wide as the declared type (UCHAR 1, USHORT 2, ULONG 4,
     LARGE_INTEGER 8); raw appends are of `UCHAR` arrays and nested `Marshal` calls of the declared
     nested structure; within the parameter block and within the data block the emissions are exactly
     the declared fields of that block, each once, in declaration order (parameters declared before
     data); no field is assigned after it went out; no declared field is left out.
-    `WriteRequest` puts its data buffer ahead of the parameter block; the other six never emit one
-    of their declared fields (`commands_dropping_fields`). -/
+    `WriteRequest` puts its data buffer ahead of the parameter block.  (Six more once never emitted one of their
+    declared fields — `commands_dropping_fields`, now empty: repaired in the repository, fixes/C04-*.diff.) -/
 theorem non_conforming_commands :
     (commands.filter (fun c => !Conforms c)).map (·.name) =
-      ["LockAndReadResponse", "NegotiateRequest", "NegotiateResponse", "OpenAndxResponse",
-       "QueryInformationResponse", "ReadResponse", "WriteRequest"] := by decide +kernel
+      ["WriteRequest"] := by decide +kernel
 
 /-- the part of `Conforms` that `conforms_sound` rests on (everything but "no declared field is left
     out") fails for `WriteRequest` only -/
 theorem core_non_conforming_commands :
     (commands.filter (fun c => !ConformsCore c)).map (·.name) = ["WriteRequest"] := by decide +kernel
 
-/-- **Declared fields no statement of `Marshal` emits** (not even under a condition), per command:
-    e.g. `OpenAndxResponse.Marshal` has the comment "Marshalling parameter NMPipeStatus" with no code
-    under it and never mentions `Reserved`, so the structure goes out 8 bytes short of its declared
-    layout.  (`WriteRequest.Data` is emitted, but ahead of the parameter block, so it is not listed.) -/
+/-- **Declared fields no statement of `Marshal` emits** (not even under a condition), per command: none any more.
+    (Before the repairs: LockAndReadResponse.Reserved, NegotiateRequest.WordCount, NegotiateResponse.ServerName,
+    OpenAndxResponse.NMPipeStatus and .Reserved, QueryInformationResponse.Reserved, ReadResponse.Reserved.
+    `WriteRequest.Data` is emitted, but ahead of the parameter block, so it was never listed.) -/
 theorem commands_dropping_fields :
     (commands.filter (fun c => !allEmitted c)).map
         (fun c => (c.name, (c.fields.map (·.1)).filter (fun f => !(emittedDeep c.marshal).contains f))) =
-      [("LockAndReadResponse", ["Reserved"]), ("NegotiateRequest", ["WordCount"]),
-       ("NegotiateResponse", ["ServerName"]), ("OpenAndxResponse", ["NMPipeStatus", "Reserved"]),
-       ("QueryInformationResponse", ["Reserved"]), ("ReadResponse", ["Reserved"])] := by decide +kernel
+      [] := by decide +kernel
 
 /-- the commands outside the straight-line fragment (a loop over a list field, a field emitted under
-    a condition, bytes ahead of the parameter block): `Spec.Cifs.encode` is silent on them, so
+    a condition, bytes ahead of the parameter block, literal terminator bytes): `Spec.Cifs.encode` is silent on them, so
     `conforms_sound` says nothing there and they are covered by the differential run only -/
 theorem commands_outside_straight_line :
     (commands.filter (fun c => (layoutM c.marshal).isNone)).map (·.name) =
-      ["FindResponse", "FindUniqueResponse", "LockingAndxRequest", "OpenAndxRequest", "ReadRawRequest",
-       "TransactionRequest", "WriteAndCloseRequest", "WriteAndxRequest", "WriteRawRequest",
-       "WriteRequest"] := by decide +kernel
+      ["FindResponse", "FindUniqueResponse", "LockAndReadResponse", "LockingAndxRequest",
+       "NegotiateResponse", "OpenAndxRequest", "OpenAndxResponse", "QueryInformationResponse",
+       "ReadRawRequest", "TransactionRequest", "WriteAndCloseRequest", "WriteAndxRequest",
+       "WriteRawRequest", "WriteRequest"] := by decide +kernel
 
-/-- **Loops over list fields, proved**: of the commands outside the straight-line fragment exactly these five
+/-- **Loops over list fields, proved**: of the commands outside the straight-line fragment exactly these eight
     pass `ConformsLists` — `Conforms`, and nothing but straight-line statements and `range` loops over a
     field declared as an array of integers (little-endian at the element width) or as a list of the nested
     structure marshalled.  `conforms_lists_sound` (Props/C05.lean) turns this into: for all field values
     the bytes `Marshal` emits are those of `Spec.Cifs.encodeLists`. -/
 theorem lists_conforming_commands :
     (commands.filter (fun c => (layoutM c.marshal).isNone && ConformsLists c)).map (·.name) =
-      ["FindResponse", "FindUniqueResponse", "LockingAndxRequest", "OpenAndxRequest", "TransactionRequest"] := by
+      ["FindResponse", "FindUniqueResponse", "LockAndReadResponse", "LockingAndxRequest", "OpenAndxRequest",
+       "OpenAndxResponse", "QueryInformationResponse", "TransactionRequest"] := by
   decide +kernel
 
 /-- `ConformsLists` extends the straight-line case: every straight-line command that passes `Conforms`
@@ -66,26 +65,27 @@ theorem lists_conforming_extends :
     commands.all (fun c => !(Conforms c && (layoutM c.marshal).isSome) || ConformsLists c) = true := by
   decide +kernel
 
-/-- **One optional parameter field, proved**: exactly these three commands pass `ConformsOptional` —
+/-- **One optional parameter field, proved**: exactly these four commands pass `ConformsOptional` —
     `Conforms`, one statement `if c.F != 0 { … }` whose body emits `F` (full declared width, little-endian)
     into the parameter block and nothing else, no other emission of `F`, everything else straight-line or
     a loop.  `conforms_optional_sound` turns this into: for all field values the bytes are those of
     `Spec.Cifs.encodeOptional` (short form for a zero field, long form otherwise). -/
 theorem optional_conforming_commands :
     (commands.filter ConformsOptional).map (fun c => (c.name, Manticore.Spec.Cifs.optionalFields c.marshal)) =
-      [("WriteAndCloseRequest", ["Reserved"]), ("WriteAndxRequest", ["OffsetHigh"]),
-       ("WriteRawRequest", ["OffsetHigh"])] := by decide +kernel
+      [("ReadRawRequest", ["OffsetHigh"]), ("WriteAndCloseRequest", ["Reserved"]),
+       ("WriteAndxRequest", ["OffsetHigh"]), ("WriteRawRequest", ["OffsetHigh"])] := by decide +kernel
 
-/-- **What is still outside every proved fragment**: of the ten commands outside the straight-line
-    fragment, two pass neither `ConformsLists` nor `ConformsOptional` — `ReadRawRequest` emits `OffsetHigh`
-    under a condition on the word count its own `Marshal` is still building (never true: the field is
-    never sent — C04 finding `conditional-field`), `WriteRequest` puts its buffer ahead of the parameter
+/-- **What is still outside every proved fragment**: of the fourteen commands outside the straight-line
+    fragment, two pass neither `ConformsLists` nor `ConformsOptional` — `NegotiateResponse` writes the two-byte
+    terminators of `DomainName` and `ServerName` as literal bytes, of which the encoders over the declared field list
+    have no notion (its `Conforms` clauses hold), `WriteRequest` puts its buffer ahead of the parameter
     block (already in `non_conforming_commands`).  On these the three MS-CIFS encoders are silent and only
-    the differential run speaks. -/
+    the differential run speaks.  (`ReadRawRequest` left this list with fixes/C04-readraw-request-offsethigh.diff:
+    `OffsetHigh` is emitted iff non-zero now.) -/
 theorem commands_outside_proved_fragments :
     (commands.filter (fun c => (layoutM c.marshal).isNone && !ConformsLists c && !ConformsOptional c)).map
         (fun c => (c.name, extFailures c)) =
-      [("ReadRawRequest", ["a field emitted under a condition on WordCount", "statement shape"]),
+      [("NegotiateResponse", ["statement shape"]),
        ("WriteRequest", ["bytes ahead of the parameter block", "statement shape",
           "int-width/endianness or bytes ahead of the parameter block"])] := by decide +kernel
 
